@@ -477,12 +477,23 @@ func (s *Scenario) buildWorld(W string, src []byte, image []byte) (*worldPaths, 
 		dstArg = dstAbs
 	case "is_dir":
 		must(os.Mkdir(dstAbs, 0777))
-	case "symlink_file":
+	case "symlink_file": // judged on the file the bytes land in, not on the link
 		tgt := filepath.Join(W, "out", "target.bin")
 		must(os.WriteFile(tgt, pre(len(image)+9), 0644))
 		must(os.Symlink(tgt, dstAbs))
+		dstArg, dstAbs = dstAbs, tgt
 	case "dangling_symlink":
-		must(os.Symlink(filepath.Join(W, "out", "newtarget.bin"), dstAbs))
+		tgt := filepath.Join(W, "out", "newtarget.bin")
+		must(os.Symlink(tgt, dstAbs))
+		dstArg, dstAbs = dstAbs, tgt
+	case "rw_file_in_ro_dir": // an existing, writable output in a directory that cannot be modified
+		d := filepath.Join(W, "fixeddir")
+		must(os.Mkdir(d, 0755))
+		dstAbs = filepath.Join(d, dstName)
+		dstArg = dstAbs
+		must(os.WriteFile(dstAbs, pre(len(image)+5), 0666))
+		os.Chmod(dstAbs, 0666)
+		must(os.Chmod(d, 0555))
 	case "dev_full":
 		dstAbs, dstArg = "/dev/full", "/dev/full"
 	case "barename":
@@ -546,6 +557,9 @@ func (s *Scenario) buildWorld(W string, src []byte, image []byte) (*worldPaths, 
 				return nil
 			}
 			if s.DstKind == "dir_no_search" && p == filepath.Join(W, "nosearch") {
+				return nil
+			}
+			if s.DstKind == "rw_file_in_ro_dir" && p == filepath.Join(W, "fixeddir") {
 				return nil
 			}
 			os.Lchown(p, nobody, nobody)
